@@ -273,6 +273,28 @@ Adjust(op, ax, dx, f) ==
        [] op = "cbw" -> AJ(Msb(8, al) * 65280 + al, dx, 0, 0, 0)
        [] op = "cwd" -> AJ(ax, Msb(16, ax) * 65535, 0, 0, 0)
 
+\* DAA/DAS, second reading: the manual's prose promises a valid packed-decimal result for valid
+\* packed-decimal operands, which the literal pseudo-code above does not deliver when the +-6 step
+\* wraps the byte (61h + 99h).  The hardware (and every later Intel manual) tests the ORIGINAL AL
+\* against 99h for the high-digit correction.  Both readings are accepted (DESIGN.md 7.4).
+AdjustHw(op, ax, dx, f) ==
+  LET al == Lo(ax)  ah == Hi(ax)
+      af == FlagSet(f, AF)  cf == FlagSet(f, CF)
+      a1 == (al % 16 > 9) \/ af
+      a2 == (al > 153) \/ cf
+  IN CASE op = "daa" ->
+            LET al1 == IF a1 THEN (al + 6) % 256 ELSE al
+                al2 == IF a2 THEN (al1 + 96) % 256 ELSE al1
+            IN AJ(ah * 256 + al2, dx, B(a1, AF) + B(a2, CF) + SZP(8, al2), AF + CF + SF + ZF + PF, OF)
+       [] op = "das" ->
+            LET al1 == IF a1 THEN (al - 6) % 256 ELSE al
+                c1 == cf \/ (a1 /\ al < 6)
+                al2 == IF a2 THEN (al1 - 96) % 256 ELSE al1
+            IN AJ(ah * 256 + al2, dx, B(a1, AF) + B(a2 \/ c1, CF) + SZP(8, al2), AF + CF + SF + ZF + PF, OF)
+       [] OTHER -> Adjust(op, ax, dx, f)
+
+AdjustAlts(op, ax, dx, f) == {Adjust(op, ax, dx, f), AdjustHw(op, ax, dx, f)}
+
 (***************************************************************************)
 (* Conditions                                                              *)
 (***************************************************************************)
